@@ -53,7 +53,8 @@ def _spec(module):
                       lambda units, R: cmpfold.cmp1(units, R, unit_names=('cJSON.c',)),
                       lambda units, R: shape.shp1(units, R, editors=[
                           ('cJSON.c', 'bad_SHP1_detach', lambda u, f: shape._cases_detach_ptr(u, f, stray_case=False), 'remove the given element'),
-                          ('cJSON.c', 'good_unlink', lambda u, f: shape._cases_detach_ptr(u, f, stray_case=False), 'remove the given element')])],
+                          ('cJSON.c', 'good_unlink', lambda u, f: shape._cases_detach_ptr(u, f, stray_case=False), 'remove the given element')]),
+                      lambda units, R: shape.shp3(units, R, names=('bad_SHP3_item_at', 'good_item_at', 'bad_SHP3_last_member', 'good_first_member'))],
         }]
     if module == 'own':
         from . import own, parse
